@@ -9,7 +9,7 @@ INC = os.path.join(VERIF, 'seeded', os.environ.get('SEEDED_INC', '_incoming'))
 import re as _re
 _m = _re.search(r'(\d+)$', INC)
 ROUND = ('r' + _m.group(1)) if _m else ''
-NEED = re.compile(r'(?i)(what it needs|^\s*\**needs[,:]|^\s*needs,? (in order )?to manifest|needed to manifest)')
+NEED = re.compile(r'(?i)(what it needs|^\s*[*-]?\s*\**needs[,:]|^\s*needs,? (in order )?to manifest|needed to manifest)')
 STOP = re.compile(r'^(#|\*\*[A-Z]|Commands|Verification|Demonstration|Demo\b|---|```)')
 
 
